@@ -607,6 +607,13 @@ def compare(m, obs, idmap, sfx, step):
         diff = {p: [got.get(p), exp.get(p)] for p in set(got) | set(exp)
                 if got.get(p) != exp.get(p)}
         vg, ve = sorted(got), sorted(exp)
+        if m.fmt == "git" and m.stale:
+            # exactly the entries the listed commit defect left behind?
+            rest = {p: e for p, e in got.items()
+                    if p in exp or p not in m.stale}
+            check(rest != exp, "C09/never-committed-dirified-index-entry-"
+                  "still-versioned", {"step": step, "stale": sorted(m.stale),
+                                      "got_vs_expected": diff})
         what = "versioned-paths" if vg != ve else "entry-state"
         check(False, "C09/%s-differ-after-%s" % (what, sfx),
               {"step": step, "got_vs_expected": diff})
@@ -705,15 +712,29 @@ def _steps(case, env, wt, root, m, idmap, revs, labels, held, last_obs):
             # one lock; the observations in between nest read locks in it
             (wt.lock_write if s[1] == "write" else wt.lock_tree_write)()
             held[0] = wt
+            m.apply(s)
             continue
         if op == "unlock":
             wt.unlock()
             held[0] = False
+            m.apply(s)
             obs = observe(wt)
-            check(obs == last_obs, "C09/observation-changes-at-unlock",
+            # (unknowns below an entry whose recorded kind is unknown are
+            # not determined: a re-read may refresh that kind)
+            unc = m.uncertain_paths() if m.fmt == "bzr" else []
+
+            def clear(o):
+                o = dict(o)
+                for k in ("extras", "unknowns"):
+                    o[k] = [p for p in o[k]
+                            if not any(inside(u, p) for u in unc)]
+                return o
+            a, b = clear(last_obs), clear(obs)
+            check(a == b, "C09/observation-changes-at-unlock",
                   {"step": [i, s],
-                   "inside_vs_after": {k: [last_obs[k], obs[k]]
-                                       for k in obs if obs[k] != last_obs[k]}})
+                   "inside_vs_after": {k: [a[k], b[k]]
+                                       for k in b if a[k] != b[k]}})
+            last_obs = obs
             continue
         if op == "reopen":
             before = observe(wt)
